@@ -54,6 +54,10 @@ def run(ctx):
     # partial_cmp of the two values, so that -0 and 0 are neither < nor >) is part of what `<` means
     from .c02 import check_internal_order
     ctx.attempt("check_internal_order", check_internal_order, ctx, lib)
+    # the numbers being compared are what the JSON parse made of the literal / document text (visitor rows shared with C08):
+    # an integer that wraps or turns into a double on the way in compares wrongly however exact the comparison is
+    from .c08 import check_visitor
+    ctx.attempt("check_visitor", check_visitor, ctx, lib)
     n = check_accessors(ctx, lib, "accessor-table")
     ctx.floor("accessor-table", n, 100, "accessor decision paths walked")
 
